@@ -121,6 +121,8 @@ class Ctx:
         self.notes: List[str] = []
         self.extra_cov: Dict[str, Any] = {}
         self.known = json.load(open(KNOWN)) if os.path.exists(KNOWN) else {"findings": []}
+        self.beyond: Dict[str, int] = {}
+        self.beyond_first: Dict[str, str] = {}
         self.partial = False      # development run (--no-mc / --cases / --replay): evidence goes to out/, not evidence/
 
     # ---- known findings
@@ -140,6 +142,12 @@ class Ctx:
 
     def judge(self, case: Dict[str, Any], obs: Dict[str, Any], fails: List[str]) -> None:
         clauses, tags = self.classify(fails)
+        # clauses about behaviour outside the listed property (the specification covers more than the list): counted and reported as
+        # a note, never as a violation of this property
+        for c in [c for c in clauses if c.startswith("beyond_")]:
+            self.beyond[c] = self.beyond.get(c, 0) + 1
+            self.beyond_first.setdefault(c, case["id"])
+        clauses = [c for c in clauses if not c.startswith("beyond_")]
         if not clauses:
             return
         if "in_domain" in clauses and "input_faithful" in clauses:
@@ -225,6 +233,10 @@ class Ctx:
                 with open(p, "w") as fh:
                     json.dump(payload, fh, indent=1, default=str)
                 lines.append(f"VIOLATION property={self.prop.id} replay={p}   [{what}]")
+        for c, n in sorted(self.beyond.items()):
+            lines.append(f"NOTE beyond-property clause {c} (specified behaviour outside {self.prop.id}'s statement, see DESIGN.md section 6 'observations') "
+                         f"did not hold on {n} records, first {self.beyond_first[c]}; not a violation of {self.prop.id}")
+            self.notes.append(f"beyond-property clause {c} did not hold on {n} records (observation, not a violation of this property)")
         ev = {
             "property_id": self.prop.id, "tier": self.tier, "seed": self.seed, "level": "model_checking",
             "coverage": {
